@@ -9,11 +9,15 @@ package main
 import (
 	"bufio"
 	"bytes"
+	"crypto/sha256"
+	"encoding/hex"
 	"encoding/json"
 	"fmt"
 	"log"
 	"os"
 	"path/filepath"
+	"reflect"
+	"sort"
 	"runtime/debug"
 	"syscall"
 	"time"
@@ -47,6 +51,8 @@ type result struct {
 	Sym      map[string]int32 `json:"sym"`
 	Format   string           `json:"format"`
 	Digest   string           `json:"digest"`
+	TreeBefore string         `json:"tree_before"`
+	TreeAfter  string         `json:"tree_after"`
 	Micros   int64            `json:"us"`
 }
 
@@ -93,7 +99,13 @@ func runOne(o op, dir string, n int) (r result) {
 			lastTree = t
 			haveTree = true
 		}
+		if o.Digest {
+			r.TreeBefore = treeDigest(tree)
+		}
 		p1, _ := frontend.Exec(tree, dst)
+		if o.Digest {
+			r.TreeAfter = treeDigest(tree)
+		}
 		if p1 != nil {
 			r.LOC = p1.LOC
 			r.Dollar = p1.DollarPosition
@@ -118,6 +130,83 @@ func runOne(o op, dir string, n int) (r result) {
 		r.Digest = globalDigest()
 	}
 	return r
+}
+
+// treeDigest: digest of the parsed syntax tree: a reflective deep dump that follows pointers and
+// interfaces (cycle-guarded) and prints no addresses or capacities.
+func treeDigest(tree any) string {
+	h := sha256.New()
+	seen := map[uintptr]bool{}
+	var walk func(v reflect.Value, depth int)
+	walk = func(v reflect.Value, depth int) {
+		if depth > 200 {
+			fmt.Fprint(h, "<deep>")
+			return
+		}
+		switch v.Kind() {
+		case reflect.Invalid:
+			fmt.Fprint(h, "<nil>")
+		case reflect.Ptr:
+			if v.IsNil() {
+				fmt.Fprint(h, "<nilptr>")
+				return
+			}
+			if seen[v.Pointer()] {
+				fmt.Fprint(h, "<cycle>")
+				return
+			}
+			seen[v.Pointer()] = true
+			fmt.Fprint(h, "&")
+			walk(v.Elem(), depth+1)
+			delete(seen, v.Pointer())
+		case reflect.Interface:
+			if v.IsNil() {
+				fmt.Fprint(h, "<nilif>")
+				return
+			}
+			fmt.Fprintf(h, "(%s)", v.Elem().Type())
+			walk(v.Elem(), depth+1)
+		case reflect.Struct:
+			fmt.Fprintf(h, "%s{", v.Type())
+			for i := 0; i < v.NumField(); i++ {
+				fmt.Fprintf(h, "%s:", v.Type().Field(i).Name)
+				walk(v.Field(i), depth+1)
+				fmt.Fprint(h, ";")
+			}
+			fmt.Fprint(h, "}")
+		case reflect.Slice, reflect.Array:
+			fmt.Fprintf(h, "[%d:", v.Len())
+			for i := 0; i < v.Len(); i++ {
+				walk(v.Index(i), depth+1)
+				fmt.Fprint(h, ",")
+			}
+			fmt.Fprint(h, "]")
+		case reflect.Map:
+			keys := v.MapKeys()
+			sort.Slice(keys, func(i, j int) bool { return fmt.Sprint(keys[i]) < fmt.Sprint(keys[j]) })
+			fmt.Fprint(h, "map{")
+			for _, k := range keys {
+				fmt.Fprintf(h, "%v=>", k)
+				walk(v.MapIndex(k), depth+1)
+				fmt.Fprint(h, ",")
+			}
+			fmt.Fprint(h, "}")
+		case reflect.String:
+			fmt.Fprintf(h, "%q", v.String())
+		case reflect.Bool:
+			fmt.Fprint(h, v.Bool())
+		case reflect.Int, reflect.Int8, reflect.Int16, reflect.Int32, reflect.Int64:
+			fmt.Fprint(h, v.Int())
+		case reflect.Uint, reflect.Uint8, reflect.Uint16, reflect.Uint32, reflect.Uint64, reflect.Uintptr:
+			fmt.Fprint(h, v.Uint())
+		case reflect.Float32, reflect.Float64:
+			fmt.Fprint(h, v.Float())
+		default:
+			fmt.Fprintf(h, "<%s>", v.Kind())
+		}
+	}
+	walk(reflect.ValueOf(tree), 0)
+	return hex.EncodeToString(h.Sum(nil)[:8])
 }
 
 func firstLines(s string, n int) string {
